@@ -1,3 +1,15 @@
+/-!
+# DESIGN-PHASE SEED (superseded by `Model/WritePath.lean`, namespace `SV.WPath`) - `Active.Replay` / `ReadDocBlock` (C01)
+
+Abstract prototype (namespace `SV.WP`) with an abstract header `Codec`; no theorem of `Props/` uses it.  The model of
+the C01 theorems is the byte-level `SV.WPath.readDocBlock` / `replayGo` / `replay` (Model/WritePath.lean over Model/WPBytes.lean).
+This seed has NO counterpart of two behaviours of the real reader: the uint64 wrap of `FullLen = 33 + Len` and the
+`make()` panic on an oversized length.  Do not cite it as a model of the current code.
+Relation, proved in `Consistency/DocBytesReplay.lean`: `cons_docBytes_seedReadBlock_eq_wpReadDocBlock`,
+`cons_docBytes_seedReplay_eq_wpReplayGo`, `cons_docBytes_seedReplay_eq_wpReplay` (equal for codecs matching the real
+header layout, bytes < 256, no wrap / panic), `cons_docBytes_seedReadBlock_ne_wpReadDocBlock_witness` (length field
+2^64-1: Go and `SV.WPath` return a 32-byte block by wrap-around, the seed cannot).
+-/
 namespace SV.WP
 
 /-- abstract block: header of fixed length H whose decoded length field is `len`, then payload -/
